@@ -178,6 +178,9 @@ def mw_get_target(next_, posargs_, target_file, target_format, spec_file, spec_f
         try:
             with open(spec_file) as f:
                 spec_text = f.read()
+            # the newline that ends a text file is not part of the spec
+            if spec_text.endswith('\n'):
+                spec_text = spec_text[:-1]
         except (OSError, UnicodeDecodeError) as ose:
             raise UsageError(f'could not read spec file {spec_file!r}, got: {ose}')
 
